@@ -153,7 +153,7 @@ def _classify(failures, kf, ctx):
     return new
 
 
-WALL_BUDGET_S = {"quick": 150.0, "thorough": 1500.0}
+WALL_BUDGET_S = {"quick": 600.0, "thorough": 5400.0}
 
 
 def run_check(unit, case, ctx):
